@@ -614,6 +614,13 @@ class ZAbs(Z):
         return s
 
 
+# autoray infers the backend from the defining module of a value's class: numpy hands back bare
+# elements (not 0-d arrays) from full contractions of object arrays, and library code then treats them
+# like numpy scalars (np.float64 lives in module "numpy")
+for _cls in (Z, ZAbs, ZB):
+    _cls.__module__ = "numpy"
+
+
 def _nonzero(den):
     """side condition of a division: numpy would give inf/nan — outside the claim (reals for
     floats, no non-finite data); recorded as an assumption of the path."""
@@ -658,13 +665,28 @@ def parts(v):
     return z.re, (z.im if z.im is not None else _R0)
 
 
+def _diff_is_zero(x, y):
+    """x == y stated as  normal_form(x - y) == 0 : z3's simplifier expands the difference into a sum of
+    monomials (som) so that polynomial identities are decided by the solver on a canonical term instead
+    of by nlsat search (which does not finish on degree-4 identities in ~50 variables)"""
+    d = z3.simplify(x - y, som=True)
+    for _ in range(4):  # one pass leaves products of sums created by the first expansion
+        if z3.is_rational_value(d):
+            break
+        d2 = z3.simplify(d, som=True)
+        if z3.eq(d2, d):
+            break
+        d = d2
+    return d == _R0
+
+
 def eq_formula(a, b):
     ar_, ai = parts(a)
     br, bi = parts(b)
-    fr = ar_ == br
+    fr = _diff_is_zero(ar_, br)
     if _is_zero(ai) and _is_zero(bi):
         return fr
-    return z3.And(fr, ai == bi)
+    return z3.And(fr, _diff_is_zero(ai, bi))
 
 
 def is_symbolic_array(x):
